@@ -230,6 +230,14 @@ class BADS:
                 high=self.plausible_upper_bounds,
                 size=(1, self.D),
             )
+            # a plausible box that touches a hard bound can be sampled at its
+            # edge: keep the random start strictly inside the hard bounds
+            self.x0 = np.minimum(
+                np.maximum(
+                    self.x0, np.nextafter(self.lower_bounds, np.inf)
+                ),
+                np.nextafter(self.upper_bounds, -np.inf),
+            )
             self.logger.log(
                 25,
                 "Initial starting point is invalid or not provided."
